@@ -541,6 +541,41 @@ func c13(x *mon.Ctx) {
 				add("unread-field-of-any-type", u.name+"/"+where, "exact", p, world.Seq(top...), nil)
 			}
 		}
+		// an unread field's identifier may be anything too: a child of a field that IS read (…13.1.1.1, …13.1.4.2.3), the parent
+		// arc itself, a TCB component's identifier at the top level, a neighbouring arc — holding a value of the size the field
+		// it resembles would have. The values that are read stay what they are.
+		for oi, o := range []struct {
+			name string
+			oid  []byte
+			val  []byte
+		}{
+			{"child-of-ppid", world.OID(1, 1), world.Octets(bytes.Repeat([]byte{0xee}, 16))}, {"grandchild-of-ppid", world.OID(1, 0, 1), world.Octets(bytes.Repeat([]byte{0xee}, 16))},
+			{"child-of-tcb", world.OID(2, 1), world.Int(77)}, {"child-of-tcb-holding-a-tcb", world.OID(2, 18), nil},
+			{"child-of-pceid", world.OID(3, 1), world.Octets([]byte{0x11, 0x22})}, {"child-of-fmspc", world.OID(4, 2, 3), world.Octets(bytes.Repeat([]byte{0x33}, 6))},
+			{"child-of-fmspc-0", world.OID(4, 0), world.Octets(bytes.Repeat([]byte{0x33}, 6))},
+			{"the-extension-arc-itself", world.OID(), world.Octets(bytes.Repeat([]byte{0xee}, 16))},
+			{"sibling-arc-13-2-1", world.TLV(0x06, []byte{0x2A, 0x86, 0x48, 0x86, 0xF8, 0x4D, 0x01, 0x0D, 0x02, 0x01}), world.Octets(bytes.Repeat([]byte{0xee}, 16))},
+		} {
+			for _, where := range []string{"first", "last", "middle"} {
+				p := randPlat(r)
+				top := world.SgxTopElems(p, world.SgxTcbElems(p))
+				val := o.val
+				if val == nil {
+					q := randPlat(r)
+					val = world.Seq(world.SgxTcbElems(q)...)
+				}
+				el := world.Seq(o.oid, val)
+				switch where {
+				case "first":
+					top = append([][]byte{el}, top...)
+				case "last":
+					top = append(top, el)
+				default:
+					top = append(append(append([][]byte{}, top[:2]...), el), top[2:]...)
+				}
+				add("unread-field-with-a-related-identifier", fmt.Sprintf("%s/%s#%d", o.name, where, oi), "exact", p, world.Seq(top...), nil)
+			}
+		}
 		for _, tgt := range []struct {
 			name string
 			idx  int
